@@ -78,7 +78,7 @@ func next(kinds ...string) ndValue {
 		v := values[pos]
 		pos++
 		switch v.Kind {
-		case "clock", "order", "sched", "select":
+		case "clock", "order", "sched", "select", "yield":
 			continue // engine-only entries
 		}
 		for _, k := range kinds {
@@ -226,6 +226,9 @@ func Tier() int {
 	}
 	return 0
 }
+
+// Yield is a point where the engine may let all other goroutines run until they block. Natively: a short sleep.
+func Yield() { time.Sleep(2 * time.Millisecond) }
 
 // ConcreteClock makes the engine's clock concrete: every time.Now() advances by step nanoseconds
 // (0 = back to an arbitrary non-decreasing clock). Natively the real clock is used.
